@@ -48,7 +48,9 @@ type entry struct {
 	Arg      string   `json:"arg,omitempty"`
 	Precs    []int    `json:"precs,omitempty"` // template: per parameter; join: one element
 	Defaults []string `json:"defaults,omitempty"`
-	PMs      []string `json:"pms,omitempty"` // asis | decremented | byspaces
+	PMs      []string `json:"pms,omitempty"`      // asis | decremented | byspaces
+	Required int      `json:"required,omitempty"` // optional: number of required parameters
+	Inner    *entry   `json:"inner,omitempty"`    // optional: the wrapped migrator
 }
 
 func parseFile(path string) (*token.FileSet, *ast.File) {
@@ -341,10 +343,95 @@ func keepsNegative(f *ast.File) bool {
 	return found
 }
 
+// parseMigrator reads one call migrator constructor expression
+func parseMigrator(name string, expr ast.Expr, what string, consts map[string]int) entry {
+	ctor, args := callName(expr, what)
+	e := entry{Name: name}
+	switch ctor {
+	case "asIs":
+		if len(args) != 0 {
+			fatal("%s: asIs takes no arguments", what)
+		}
+		e.Kind = "asis"
+	case "asRename":
+		if len(args) != 1 {
+			fatal("%s: asRename takes one argument", what)
+		}
+		e.Kind, e.Arg = "rename", strLit(args[0], what)
+	case "asTemplate":
+		if len(args) != 1 {
+			fatal("%s: asTemplate takes one argument", what)
+		}
+		e.Kind, e.Arg = "template", strLit(args[0], what)
+		checkFormat(name, e.Arg)
+	case "asOperatorTemplate":
+		if len(args) < 1 {
+			fatal("%s: asOperatorTemplate needs a template", what)
+		}
+		e.Kind, e.Arg = "template", strLit(args[0], what)
+		checkFormat(name, e.Arg)
+		for i, a := range args[1:] {
+			e.Precs = append(e.Precs, precExpr(a, consts, fmt.Sprintf("%s precedence %d", what, i)))
+		}
+	case "asJoin":
+		if len(args) != 2 {
+			fatal("%s: asJoin takes two arguments", what)
+		}
+		e.Kind, e.Arg = "join", strLit(args[0], what)
+		e.Precs = []int{precExpr(args[1], consts, what+" precedence")}
+	case "asParamMigrators", "asParamMigratorsWithDefaults":
+		min := 1
+		if ctor == "asParamMigratorsWithDefaults" {
+			min = 2
+		}
+		if len(args) < min {
+			fatal("%s: %s needs at least %d arguments", what, ctor, min)
+		}
+		e.Kind, e.Arg = "params", strLit(args[0], what)
+		e.Defaults = []string{}
+		rest := args[1:]
+		if ctor == "asParamMigratorsWithDefaults" {
+			e.Defaults = stringSliceLit(args[1], what+" defaults")
+			if e.Defaults == nil {
+				e.Defaults = []string{}
+			}
+			rest = args[2:]
+		}
+		e.PMs = []string{}
+		for i, a := range rest {
+			e.PMs = append(e.PMs, pmKind(a, fmt.Sprintf("%s param %d", what, i)))
+		}
+		if len(e.Defaults) > len(e.PMs) {
+			fatal("%s: %d defaults but only %d parameter migrators (index out of range in the Go code)", what, len(e.Defaults), len(e.PMs))
+		}
+	case "asDateDif":
+		if len(args) != 0 {
+			fatal("%s: asDateDif takes no arguments", what)
+		}
+		e.Kind = "datedif"
+	case "withOptionalDefaults":
+		if len(args) != 3 {
+			fatal("%s: withOptionalDefaults takes three arguments", what)
+		}
+		bl, ok := args[0].(*ast.BasicLit)
+		if !ok || bl.Kind != token.INT {
+			fatal("%s: withOptionalDefaults: number of required parameters is not an integer literal", what)
+		}
+		n, _ := strconv.Atoi(bl.Value)
+		e.Kind, e.Required = "optional", n
+		e.Defaults = stringSliceLit(args[1], what+" defaults")
+		inner := parseMigrator(name, args[2], what+" inner", consts)
+		e.Inner = &inner
+	default:
+		fatal("%s: unknown migrator constructor %s", what, ctor)
+	}
+	return e
+}
+
 func extractTable(repo string, consts map[string]int) []entry {
 	path := filepath.Join(repo, "flows/definition/legacy/expressions/functions.go")
 	_, f := parseFile(path)
-	requireFuncs(f, path, map[string]int{"asIs": 0, "asRename": 1, "asTemplate": 1, "asOperatorTemplate": 2, "asJoin": 2, "asParamMigrators": 2,
+	requireFuncs(f, path, map[string]int{"asIs": 0, "asRename": 1, "asTemplate": 1, "asOperatorTemplate": 2, "asJoin": 2, "asDateDif": 0, "withOptionalDefaults": 3, "numTemplateParams": 1, "asParamMigrators": 2,
 		"asParamMigratorsWithDefaults": 3, "paramAsIs": 0, "paramDecremented": 0, "paramBySpaces": 0,
 		"migrateFunctionCall": 2, "renderCall": 2})
 	v := findVar(f, "callMigrators", path)
@@ -375,68 +462,7 @@ func extractTable(repo string, consts map[string]int) []entry {
 		}
 		seen[name] = true
 		what := fmt.Sprintf("callMigrators[%q]", name)
-		ctor, args := callName(kv.Value, what)
-		e := entry{Name: name}
-		switch ctor {
-		case "asIs":
-			if len(args) != 0 {
-				fatal("%s: asIs takes no arguments", what)
-			}
-			e.Kind = "asis"
-		case "asRename":
-			if len(args) != 1 {
-				fatal("%s: asRename takes one argument", what)
-			}
-			e.Kind, e.Arg = "rename", strLit(args[0], what)
-		case "asTemplate":
-			if len(args) != 1 {
-				fatal("%s: asTemplate takes one argument", what)
-			}
-			e.Kind, e.Arg = "template", strLit(args[0], what)
-			checkFormat(name, e.Arg)
-		case "asOperatorTemplate":
-			if len(args) < 1 {
-				fatal("%s: asOperatorTemplate needs a template", what)
-			}
-			e.Kind, e.Arg = "template", strLit(args[0], what)
-			checkFormat(name, e.Arg)
-			for i, a := range args[1:] {
-				e.Precs = append(e.Precs, precExpr(a, consts, fmt.Sprintf("%s precedence %d", what, i)))
-			}
-		case "asJoin":
-			if len(args) != 2 {
-				fatal("%s: asJoin takes two arguments", what)
-			}
-			e.Kind, e.Arg = "join", strLit(args[0], what)
-			e.Precs = []int{precExpr(args[1], consts, what+" precedence")}
-		case "asParamMigrators", "asParamMigratorsWithDefaults":
-			min := 1
-			if ctor == "asParamMigratorsWithDefaults" {
-				min = 2
-			}
-			if len(args) < min {
-				fatal("%s: %s needs at least %d arguments", what, ctor, min)
-			}
-			e.Kind, e.Arg = "params", strLit(args[0], what)
-			e.Defaults = []string{}
-			rest := args[1:]
-			if ctor == "asParamMigratorsWithDefaults" {
-				e.Defaults = stringSliceLit(args[1], what+" defaults")
-				if e.Defaults == nil {
-					e.Defaults = []string{}
-				}
-				rest = args[2:]
-			}
-			e.PMs = []string{}
-			for i, a := range rest {
-				e.PMs = append(e.PMs, pmKind(a, fmt.Sprintf("%s param %d", what, i)))
-			}
-			if len(e.Defaults) > len(e.PMs) {
-				fatal("%s: %d defaults but only %d parameter migrators (index out of range in the Go code)", what, len(e.Defaults), len(e.PMs))
-			}
-		default:
-			fatal("%s: unknown migrator constructor %s", what, ctor)
-		}
+		e := parseMigrator(name, kv.Value, what, consts)
 		out = append(out, e)
 	}
 	if len(out) == 0 {
@@ -547,6 +573,31 @@ func coqNats(xs []int) string {
 	return "[" + strings.Join(parts, "; ") + "]"
 }
 
+func coqMigrator(e entry) string {
+	var v string
+	switch e.Kind {
+	case "asis":
+		v = "AsIs"
+	case "rename":
+		v = "Rename " + coqStr(e.Arg)
+	case "template":
+		v = "Template " + coqStr(e.Arg) + " " + coqNats(e.Precs)
+	case "join":
+		v = fmt.Sprintf("Join %s %d%%nat", coqStr(e.Arg), e.Precs[0])
+	case "params":
+		pms := make([]string, len(e.PMs))
+		for j, p := range e.PMs {
+			pms[j] = map[string]string{"asis": "PAsIs", "decremented": "PDecremented", "byspaces": "PBySpaces"}[p]
+		}
+		v = fmt.Sprintf("Params %s %s [%s]", coqStr(e.Arg), coqStrs(e.Defaults), strings.Join(pms, "; "))
+	case "datedif":
+		v = "DateDif"
+	case "optional":
+		v = fmt.Sprintf("Optional %d%%nat %s (%s)", e.Required, coqStrs(e.Defaults), coqMigrator(*e.Inner))
+	}
+	return v
+}
+
 func comment(s string) string {
 	s = strings.ReplaceAll(s, "(*", "( *")
 	s = strings.ReplaceAll(s, "*)", "* )")
@@ -615,23 +666,7 @@ func main() {
 		if i == len(table)-1 {
 			sep = ""
 		}
-		var v string
-		switch e.Kind {
-		case "asis":
-			v = "AsIs"
-		case "rename":
-			v = "Rename " + coqStr(e.Arg)
-		case "template":
-			v = "Template " + coqStr(e.Arg) + " " + coqNats(e.Precs)
-		case "join":
-			v = fmt.Sprintf("Join %s %d%%nat", coqStr(e.Arg), e.Precs[0])
-		case "params":
-			pms := make([]string, len(e.PMs))
-			for j, p := range e.PMs {
-				pms[j] = map[string]string{"asis": "PAsIs", "decremented": "PDecremented", "byspaces": "PBySpaces"}[p]
-			}
-			v = fmt.Sprintf("Params %s %s [%s]", coqStr(e.Arg), coqStrs(e.Defaults), strings.Join(pms, "; "))
-		}
+		v := coqMigrator(e)
 		fmt.Fprintf(&sb, "  (%s, %s)%s  (* %s: %s %s *)\n", coqStr(e.Name), v, sep, comment(e.Name), e.Kind, comment(e.Arg))
 	}
 	sb.WriteString("].\n\n")
